@@ -148,15 +148,10 @@ fn fuel_step() {
     std::mem::forget(p);
 }
 
-#[kani::proof]
-#[kani::unwind(260)]
-fn fuel_streak() {
-    let (mut p, t) = any_parser();
-    let n: u32 = kani::any();
-    kani::assume(n <= 258);
-    let want = expected_kind(&t, 0);
-    let mut i = 0u32;
-    while i < n {
+/// one look-ahead of the streak (only if i < n); `i` stays a compile-time constant along the unrolled sequence
+#[inline(never)]
+fn streak_call(p: &mut Parser<'static>, i: u32, n: u32, want: TokenKind) {
+    if i < n {
         let use_nth: bool = kani::any();
         let got = if use_nth { p.nth(0) } else { p.peek() };
         if i < 256 {
@@ -164,8 +159,32 @@ fn fuel_streak() {
         } else {
             assert!(got == TokenKind::Eof, "O4.1 later look-aheads return eof");
         }
-        i += 1;
     }
+}
+// The 258 calls are written out by macro instead of a loop: a `#[kani::unwind(260)]` would also unwind the *inner* loops
+// (`Input::eat_trivia`, `Input::nth`, at most 4 iterations here) 260 times per call.
+macro_rules! x4 { ($p:ident, $i:ident, $n:ident, $w:ident) => {
+    streak_call(&mut $p, $i, $n, $w); $i += 1; streak_call(&mut $p, $i, $n, $w); $i += 1;
+    streak_call(&mut $p, $i, $n, $w); $i += 1; streak_call(&mut $p, $i, $n, $w); $i += 1;
+} }
+macro_rules! x16 { ($p:ident, $i:ident, $n:ident, $w:ident) => { x4!($p, $i, $n, $w); x4!($p, $i, $n, $w); x4!($p, $i, $n, $w); x4!($p, $i, $n, $w); } }
+macro_rules! x64 { ($p:ident, $i:ident, $n:ident, $w:ident) => { x16!($p, $i, $n, $w); x16!($p, $i, $n, $w); x16!($p, $i, $n, $w); x16!($p, $i, $n, $w); } }
+macro_rules! x256 { ($p:ident, $i:ident, $n:ident, $w:ident) => { x64!($p, $i, $n, $w); x64!($p, $i, $n, $w); x64!($p, $i, $n, $w); x64!($p, $i, $n, $w); } }
+
+#[kani::proof]
+#[kani::unwind(5)]
+fn fuel_streak() {
+    let (mut p, t) = any_parser();
+    let n: u32 = kani::any();
+    kani::assume(n <= 258);
+    let want = expected_kind(&t, 0);
+    let mut i = 0u32;
+    x256!(p, i, n, want);
+    streak_call(&mut p, i, n, want);
+    i += 1;
+    streak_call(&mut p, i, n, want);
+    i += 1;
+    assert!(i == 258);
     assert!(p.diagnostics.len() == if n > 256 { 1 } else { 0 }, "O4.1 exactly one diagnostic per streak, none before exhaustion");
     assert!(p.stuck_reported.get() == (n > 256));
     kani::cover!(n == 258, "longest streak");
